@@ -947,7 +947,7 @@ func ruleLoopProgress(r *core.Reporter) {
 			// is this If a loop test? (one of its successors reaches it again)
 			var bodyEdge = -1
 			for s := 0; s < 2; s++ {
-				rs := ir.Reach([]ir.Pt{{B: ii.If.Block().Succs[s], I: 0}}, ir.Opts{Stop: func(x ssa.Instruction) bool { return x == ssa.Instruction(ii.If) }})
+				rs := ir.Reach([]ir.Pt{ir.EdgePt(ii.If.Block(), s)}, ir.Opts{Stop: func(x ssa.Instruction) bool { return x == ssa.Instruction(ii.If) }})
 				if rs.Stopped[ii.If] {
 					// a loop test has exactly one looping successor
 					if bodyEdge >= 0 {
@@ -987,7 +987,7 @@ func ruleLoopProgress(r *core.Reporter) {
 			}
 			walk(ii.If.Cond, 0)
 			// keep phis that are loop-carried: their block is reachable from the loop body
-			body := ir.Reach([]ir.Pt{{B: ii.If.Block().Succs[bodyEdge], I: 0}}, ir.Opts{Stop: func(x ssa.Instruction) bool { return x == ssa.Instruction(ii.If) }})
+			body := ir.Reach([]ir.Pt{ir.EdgePt(ii.If.Block(), bodyEdge)}, ir.Opts{Stop: func(x ssa.Instruction) bool { return x == ssa.Instruction(ii.If) }})
 			var carried []*ssa.Phi
 			for _, ph := range phis {
 				isCarried := false
